@@ -81,6 +81,34 @@ PROPERTIES = {
                         'settings (an invalid setting ends the escape sequence: no style is defined for it)',
                         'quick tier: tables of at most 2 change points for Q2/Q3 plus one chained 3-point shape; thorough: 3 points'],
     },
+    'C09': {
+        'groups': ['E2', 'SL', 'G2', 'G2e', 'A1', 'F3', 'M2', 'V5', 'Y3', 'W2', 'X6', 'S2', 'R4', 'N1', 'H1', 'Q2', 'X1', 'G3', 'X3'],
+        'level': 'other',
+        'explanation': 'Deductive part (per operation, composed by induction over histories): every contract run treats an exception '
+                       'type not listed for the operation as a violation ("no-exception"), checks the exception clause of the listed '
+                       'ones (IndexError exactly for an out-of-range integer index, the error str raises for the same query, '
+                       'ValueError for settings the scrubber rejects / a fill string that is not one character / a step other than '
+                       '1, TypeError for operands of other types) and, after a raise, that receiver and arguments are structurally '
+                       'unchanged ("unchanged-after-raise").  Every state-producing operation has the clause "wf": the representation '
+                       'invariant (keys within the text, every stop marker refers by identity to a setting active there, nothing '
+                       'active past the end, lists owned) holds for the receiver and every result, given it held before: '
+                       'constructor / copy (V5), slicing (G2, G2e), += (A1), apply (F3), remove (M2), assign_str (Y3), padding '
+                       '(W2), replace (X6), the matching family as apply/remove sequences (H1), simplify (Q2), clip/strip (G3, X3).  '
+                       'On a well-formed value rendering (R4), the settings queries (N1), slicing and concatenation are total: their '
+                       'contracts list no exception and the self-check AnsiString.WITH_ASSERTIONS is switched on in the symbolic runs '
+                       'and in every native replay.  Termination: the library has four while loops - the tokenizer (B1, cut with a '
+                       'variant), replace (X6: every path is run to completion; a path that exceeds the step budget is replayed '
+                       'natively under a timeout) and the integer-run loop of the scrubber (S4/S6, bounded) - all other loops are '
+                       'for-loops over sequences that are not modified in the body; recursion is over the nesting of the settings '
+                       'argument with a cycle check (S2).  Bounded stand-in E2 (native enumeration, not a proof): all histories '
+                       'of 2/3 operations out of 58 public calls on 8 start values.',
+        'trusted_base': ['wf / owns_lists in contracts/spec.py', 'the induction over histories is an argument on paper: each step is a '
+                         'discharged obligation, the composition is not machine-checked'],
+        'assumptions': ['operations not under a wf contract of their own (title/capitalize/... rewrite only the text: X2c; join, '
+                        'partition, split: results of __getitem__ / +) inherit it from the operations they are built from',
+                        'termination of for-loops rests on Python semantics (finite sequences, not mutated in the body: checked by '
+                        'reading, not by the engine)'],
+    },
     'C10': {
         'groups': ['X1', 'X2c', 'X3', 'X4p', 'X4r', 'X5', 'X6', 'X6u', 'X7', 'X8', 'W2', 'Z2'],
         'level': 'other',
